@@ -452,6 +452,11 @@ var c12Hostile = []string{
 	"meta:\n  imports: {a: \"b/1\", b: \"c/2\", c: \"a/3\"}\n  functions: {f: \"a.F\"}\nparameters: {p: \"%f()%\"}\n",
 	"meta:\n  imports: {a: \"a/b\", n: \"n\"}\nservices:\n  s: {constructor: a.New, arguments: [\"!value n.V\"]}\n",
 	"meta:\n  imports: {x: \"y/x\", y: \"z/y\", z: \"w\"}\nservices:\n  s: {constructor: x/sub.New}\ndecorators:\n  - {tag: t, decorator: y.D}\n",
+	"services:\n  a: {constructor: X, scope: shared, arguments: [\"@gone\"]}\n",
+	"services:\n  a: {constructor: X, scope: shared, arguments: [\"!tagged t\"]}\n  b: {constructor: X, tags: [t], fields: {F: \"@gone\"}}\n",
+	"services:\n  a: {constructor: X, scope: shared, tags: [t]}\ndecorators:\n  - {tag: t, decorator: D, arguments: [\"@gone\", \"%gone%\"]}\n",
+	"services:\n  a: {constructor: X, scope: contextual, arguments: [\"@gone\"]}\n  b: {constructor: X, scope: shared, calls: [[M, [\"@a\", \"@gone2\"]]]}\n",
+	"services:\n  a: {constructor: X, scope: non_shared, arguments: [\"@a\", \"%p%\"]}\nparameters: {p: \"%q%\", q: \"%p%%gone%\"}\n",
 	"", "%", "%%%", "@", "!value ", "!tagged ", "<<: {a: 1}\n", "a: &x [*x]\n", "services: {\"\": {}}\n", "parameters: {\"\": \"\"}\n",
 	"services:\n  s:\n    calls: [[]]\n", "services:\n  s:\n    calls: [[1, 2, 3, 4]]\n", "services:\n  s:\n    tags: [{priority: 1e99}]\n",
 	"services:\n  s:\n    tags: [{name: t, priority: 99999999999999999999}]\n", "version: 1\n", "version: [1]\n", "version: \"999999999999999999999.0.0\"\n",
@@ -597,6 +602,41 @@ func TestC12(t *testing.T) {
 			col.Label("confusion:" + k)
 		}
 		c12Eval(rt, c12Case{Data: []byte(text), Flags: uint8(rapid.IntRange(0, 15).Draw(rt, "flags")), Shape: uint8(rapid.IntRange(0, 3).Draw(rt, "shape") + 5*rapid.IntRange(0, len(c12BuildVersions)-1).Draw(rt, "build")), Label: "node-confusion"})
+	})
+
+	// (b2) well-formed documents with semantic defects (dangling references, cycles, scope conflicts, grammar defects) on
+	// scope-heavy configurations: the validation rules themselves must be total on each other's rejects
+	setRapidChecks(pick(400, 3000))
+	sopts := gen.All()
+	sopts.PkgMain = true
+	sopts.ScopeHeavy = true
+	rapid.Check(t, func(rt *rapid.T) {
+		if deadlinePassed() {
+			rt.Skip("budget used up")
+		}
+		conf, _ := gen.Valid(rt, sopts)
+		k := rapid.IntRange(1, 3).Draw(rt, "defects")
+		for i := 0; i < k; i++ {
+			lbl := fmt.Sprintf("d%d", i)
+			switch rapid.IntRange(0, 5).Draw(rt, lbl) {
+			case 0:
+				col.Label("defect:" + gen.InjectDanglingParam(rt, &conf, lbl))
+			case 1, 2:
+				col.Label("defect:" + gen.InjectDanglingService(rt, &conf, lbl))
+			case 3:
+				col.Label("defect:" + gen.InjectCycle(rt, &conf, lbl))
+			case 4:
+				col.Label("defect:" + gen.InjectScopeConflict(rt, &conf, lbl))
+			case 5:
+				col.Label("defect:" + gen.InjectGrammarDefect(rt, &conf, lbl))
+			}
+		}
+		text, err := cfg.Emit(conf, drawStyle(rt))
+		if err != nil {
+			col.Exclude("serialiser-self-check")
+			return
+		}
+		c12Eval(rt, c12Case{Data: []byte(text), Flags: uint8(rapid.IntRange(0, 15).Draw(rt, "flags")), Shape: uint8(rapid.IntRange(0, 3).Draw(rt, "shape") + 5*rapid.IntRange(0, len(c12BuildVersions)-1).Draw(rt, "build")), Label: "semantic-defects"})
 	})
 
 	// (c) arbitrary glob patterns and flag subsets on a valid file
